@@ -41,6 +41,11 @@ def same_result(kind, a, b, tol=1e-7):
         if x.shape != y.shape:
             return "shape differs"
         return None if all((np.isnan(p) and np.isnan(q)) or angle_eq_mod_pi(p, q, tol) for p, q in zip(x.ravel(), y.ravel())) else "angle differs (mod pi)"
+    if kind == "arr_proj":
+        xa, xb = np.asarray(_arrs(a) if hasattr(a, "array") else a), np.asarray(_arrs(b) if hasattr(b, "array") else b)
+        if not np.all(np.isfinite(xa)) and not np.all(np.isfinite(xb)):
+            return None
+        return None if proj_eq(_arrs(a) if hasattr(a, "array") else a, _arrs(b) if hasattr(b, "array") else b, tol) else "matrix differs projectively"
     if kind == "arr":
         return None if arr_eq(np.asarray(a, dtype=complex), np.asarray(b, dtype=complex), tol, tol) else "array differs"
     if kind == "obj":
@@ -139,7 +144,14 @@ def case_ops(ctx, cfg):
                     why = same_result(op.res, r0, r1)
                     if why:
                         neg = "negative" if (not isinstance(lam, complex) and lam < 0) else "complex" if isinstance(lam, complex) else "positive"
-                        ctx.fail(f"{name}:arg{pos}:{neg}-factor", name, {"operation": name, "specs": spec, "rescaled_argument": pos, "component": comp, "factor": lam}, r0 if not isinstance(r0, BaseException) else repr(r0), r1 if not isinstance(r1, BaseException) else repr(r1), why)
+                        extra = ""
+                        if name == "Conic.from_tangent":
+                            # one of the two valid conics is chosen; flag the sub-case in which an auxiliary point (meet of a
+                            # line through two of the points with the tangent) lies at infinity
+                            t_, a_, b_, c_, d_ = spec
+                            par = any((q[0] * p[2] - p[0] * q[2]) * t_[0] + (q[1] * p[2] - p[1] * q[2]) * t_[1] == 0 for p, q in ((a_, c_), (b_, d_), (a_, b_), (c_, d_)))
+                            extra = ":auxiliary-point-at-infinity" if par else ""
+                        ctx.fail(f"{name}:arg{pos}:{neg}-factor{extra}", name, {"operation": name, "specs": spec, "rescaled_argument": pos, "component": comp, "factor": lam}, r0 if not isinstance(r0, BaseException) else repr(r0), r1 if not isinstance(r1, BaseException) else repr(r1), why)
                         return
 
 
